@@ -40,6 +40,9 @@ type ExploreCfg struct {
 	NShards  int
 	Deadline time.Time
 	Races    bool // collect monitor races as findings through RaceFinding
+	// DefaultOnly: run just the default schedule (plus the determinism self-test) - for sweeps whose
+	// subject is a sequential behaviour that happens to run through goroutine-spawning code
+	DefaultOnly bool
 	// AutoSites: iterate exploration, turning every racy access site into a scheduling point, until
 	// no new racy site appears (requires Opts.Monitor).
 	AutoSites bool
@@ -400,7 +403,7 @@ func exploreOnce(prop string, sc *Scenario, cfg ExploreCfg, res *Result, sites m
 			if p.Costly {
 				cost++
 			}
-			if cfg.Bound < 0 || cost <= cfg.Bound {
+			if (cfg.Bound < 0 || cost <= cfg.Bound) && !cfg.DefaultOnly {
 				for alt := p.N - 1; alt >= 1; alt-- {
 					if len(it.prefix) == 0 && cfg.NShards > 1 {
 						// level-1 subtrees are dealt round-robin to the shards
@@ -419,6 +422,9 @@ func exploreOnce(prop string, sc *Scenario, cfg ExploreCfg, res *Result, sites m
 				dev++
 			}
 		}
+	}
+	if os.Getenv("HX_DEBUG") != "" && execs > 500 {
+		fmt.Fprintf(os.Stderr, "DEBUG %s execs=%d cfg=%s\n", sc.Name, execs, raw)
 	}
 	res.States += len(states)
 	res.Outcomes += len(outcomes)
